@@ -116,15 +116,16 @@ theorem lkp_log (a : Nat) : lkp rsLogPacked a = logAt a := by
   rw [← hp.2, lkp_packL _ hp.1.1.2]; rfl
 
 /-- sizes; logarithms of non-zero octets are `≤ 254` and inverted by the exponent table; the
-exponent table has period 255 on the indices the code can reach (`≤ 508`), holds non-zero octets
-there, and is inverted by the logarithm table on one period (evaluated on the packed tables) -/
+exponent table has period 255 on the indices the code can reach (`≤ 508`; the entries 509 … 511 are
+never read and nothing is required of them), holds non-zero octets there, and is inverted by the
+logarithm table on one period (evaluated on the packed tables) -/
 def tablesOk : Bool :=
   Nat.beq rsExp.length 512 && Nat.beq rsLog.length 256 &&
   allBin (fun a => Nat.beq a 0 ||
     (Nat.ble (lkp rsLogPacked a) 254 && Nat.beq (lkp rsExpPacked (lkp rsLogPacked a)) a)) 8 0 &&
   allBin (fun k => Nat.beq k 255 ||
-    (Nat.beq (lkp rsExpPacked (Nat.add k 255)) (lkp rsExpPacked k) && Nat.ble 1 (lkp rsExpPacked k) &&
-      Nat.beq (lkp rsLogPacked (lkp rsExpPacked k)) k)) 8 0
+    ((Nat.ble 254 k || Nat.beq (lkp rsExpPacked (Nat.add k 255)) (lkp rsExpPacked k)) &&
+      Nat.ble 1 (lkp rsExpPacked k) && Nat.beq (lkp rsLogPacked (lkp rsExpPacked k)) k)) 8 0
 
 theorem tables_ok : tablesOk = true := by decide +kernel
 
@@ -152,14 +153,17 @@ theorem exp_lt (k : Nat) : expAt k < 256 := by
   rw [lkp_exp] at this; omega
 
 theorem exp_facts (k : Nat) (hk : k < 255) :
-    expAt (k + 255) = expAt k ∧ 1 ≤ expAt k ∧ logAt (expAt k) = k := by
+    (k < 254 → expAt (k + 255) = expAt k) ∧ 1 ≤ expAt k ∧ logAt (expAt k) = k := by
   have h := tables_ok
   simp only [tablesOk, Bool.and_eq_true] at h
   have := allBin_spec _ _ _ h.2 k (Nat.zero_le _) (by simp; omega)
   simp only [Bool.or_eq_true, Bool.and_eq_true, nbeq, Nat.ble_eq, lkp_exp, lkp_log] at this
   rcases this with h | h
   · omega
-  · exact ⟨h.1.1, h.1.2, h.2⟩
+  · refine ⟨fun hk' => ?_, h.1.2, h.2⟩
+    rcases h.1.1 with h' | h'
+    · omega
+    · exact h'
 
 theorem mulP_eq (a b : Nat) : mulP a b = logMultiply a b := by
   unfold mulP logMultiply
